@@ -73,3 +73,32 @@ declarations:
 - decl: int *makeArray(int n) +owner(caller)+dimension(n)
 - decl: std::string makeString()
 """
+
+# Nested namespaces: a namespace that itself contains a namespace, next to a leaf namespace
+NESTED_CXX = """\
+library: Nest
+cxx_header: nest.hpp
+options:
+  wrap_python: true
+  wrap_lua: false
+  F_force_wrapper: true
+declarations:
+- decl: int topFn(int a)
+- decl: namespace outer
+  declarations:
+  - decl: int oneFn(int a)
+  - decl: namespace inner
+    declarations:
+    - decl: int twoFn(int a)
+    - decl: class Deep
+      declarations:
+      - decl: Deep()
+      - decl: int depth() const
+  - decl: class Mid
+    declarations:
+    - decl: Mid()
+    - decl: void poke(const std::string &s)
+- decl: namespace lone
+  declarations:
+  - decl: int threeFn(int a)
+"""
